@@ -50,8 +50,8 @@ Min(a, b) == IF a < b THEN a ELSE b
 \* on-wire sizes (ISO 13818-1 2.4.3.6 / 2.4.3.4), the same classes harness/proj.go concretises
 HdrLen(h) == CASE h = "none" -> 6 [] h = "bare" -> 9 [] h = "pts" -> 14 [] h = "ptsdts" -> 19 [] h = "full" -> 55
 AFTot(a) == CASE a = "none" -> 0 [] a = "rai" -> 2 [] a = "pcr" -> 8 [] a = "raipcr" -> 8 [] a = "priv10" -> 13
-              [] a = "rich" -> 33 [] a = "big" -> 183
-AFRai(a) == a \in {"rai", "raipcr"}
+              [] a = "rich" -> 33 [] a = "big" -> 183 [] a = "bigrai" -> 179
+AFRai(a) == a \in {"rai", "raipcr", "bigrai"}
 
 Init ==
   /\ streams = <<>> /\ escc = [p \in {} |-> 0]
@@ -92,7 +92,7 @@ Add(p, big) ==
   /\ LET auto == (p = 0)
          np == IF auto THEN (IF HasDev("AutoPidFromZero") THEN nextPid ELSE FreePid(nextPid)) ELSE p
          dup == (~auto) /\ np \in SeqToSet(streams)
-         op == [op |-> "add", pid |-> p, st |-> 27, dk |-> IF big THEN "ud170" ELSE "none"]
+         op == [op |-> "add", pid |-> p, st |-> 27, dk |-> IF big THEN "ud161" ELSE "none"]        \* ud161: the PMT is exactly one byte too large for one packet
      IN IF dup
         THEN /\ UNCHANGED <<streams, escc, pmtDirty, nextPid, changedSince, nauto, bigs>>
              /\ Quiet(op, "pidexists")
